@@ -15,6 +15,11 @@ struct AdvertiseDiscoveryResult {
 	bool conflict{false};
 };
 
+// True for hosts that must not be auto-advertised unless private advertising is allowed:
+// unspecified, loopback, private, link-local, CGNAT, documentation/benchmark, multicast/reserved
+// addresses (including IPv4-mapped IPv6 forms) and "localhost".
+bool is_private_or_reserved_host(const std::string& host);
+
 // Discovers candidate control endpoints by combining STUN measurements with
 // HTTPS echo fallbacks. Results are ordered by discovery priority but do not
 // mutate manifests yet.
